@@ -427,6 +427,11 @@ func fallbackDeriveKey(passphrase []byte, keyLen int) []byte {
 	}
 
 	key := make([]byte, keyLen)
+	if len(passphrase) == 0 {
+		// nothing to stretch (and the modulo below would divide by zero): a file without a
+		// salt opened with an empty passphrase must fail to decrypt, not panic
+		return key
+	}
 	copy(key, passphrase)
 	for i := len(passphrase); i < keyLen; i++ {
 		key[i] = passphrase[i%len(passphrase)] ^ byte(i)
